@@ -8,6 +8,7 @@ induction over the factor list (`loopF_spec`, `foldr_agree`), never by enumerati
 -/
 import Pyiga.Proofs.Tprod
 import Pyiga.Proofs.Operators
+import Pyiga.Proofs.FastDiag
 
 namespace Pyiga.Props.C16
 open Pyiga.Index Pyiga.LA Pyiga.Ops
